@@ -293,7 +293,7 @@ def exc_matches(exc, handler):
 
 
 class Obligation:
-    __slots__ = ("name", "hyps", "goal", "meta", "status", "model", "time", "backend", "reason")
+    __slots__ = ("name", "hyps", "goal", "meta", "status", "model", "time", "backend", "reason", "witness")
 
     def __init__(self, name, hyps, goal, meta=None):
         self.name = name
@@ -305,6 +305,7 @@ class Obligation:
         self.time = 0.0
         self.backend = None
         self.reason = ""
+        self.witness = None
 
 
 class Ctx:
@@ -320,6 +321,10 @@ class Ctx:
         self.axioms = []  # global background axioms (ghost definitions), added to every query
         self.covers = []
         self.notes = []
+        # optional, set by a task body: {"hints": [z3 bool], "terms": {name: z3 term | [z3 terms]}} -- when an
+        # obligation is refuted the query is re-solved with the hints (to get a small counterexample, if
+        # there is one) and the terms are evaluated in the model (input for the native replay)
+        self.witness = None
         self.reset_path([])
 
     # -- path
@@ -420,7 +425,21 @@ def conj(terms):
     return z3.And(*terms)
 
 
-def discharge(ob, axioms, timeout_ms=20000):
+def _eval_witness(m, terms):
+    def ev(t):
+        v = m.eval(t, model_completion=True)
+        if z3.is_int_value(v):
+            return v.as_long()
+        if z3.is_rational_value(v):
+            return [v.numerator_as_long(), v.denominator_as_long()]
+        if z3.is_true(v) or z3.is_false(v):
+            return z3.is_true(v)
+        return str(v)
+
+    return {k: ([ev(x) for x in t] if isinstance(t, (list, tuple)) else ev(t)) for k, t in terms.items()}
+
+
+def discharge(ob, axioms, timeout_ms=20000, witness=None):
     """Try to prove hyps => goal.  Returns status in {proved, refuted, unknown}."""
     t0 = time.time()
     s = z3.Solver()
@@ -430,17 +449,38 @@ def discharge(ob, axioms, timeout_ms=20000):
     for h in ob.hyps:
         s.add(h)
     s.add(z3.Not(ob.goal))
-    r = s.check()
+    r = None
+    m = None
+    if witness and witness.get("hints"):
+        # cheap search for a SMALL counterexample first (a model of the query plus the size hints is a model
+        # of the query): quick, stable refutations with replayable inputs; says nothing if there is none
+        s.push()
+        s.set("timeout", min(timeout_ms, 5000))
+        for h in witness["hints"]:
+            s.add(h)
+        if s.check() == z3.sat:
+            r, m = z3.sat, s.model()
+        s.pop()
+        s.set("timeout", timeout_ms)
+    if r is None:
+        r = s.check()
+        if r == z3.sat:
+            try:
+                m = s.model()
+            except Exception:
+                m = None
     ob.time = time.time() - t0
     ob.backend = "z3"
     if r == z3.unsat:
         ob.status = "proved"
     elif r == z3.sat:
         ob.status = "refuted"
-        try:
-            ob.model = s.model()
-        except Exception:
-            ob.model = None
+        ob.model = m
+        if witness and m is not None:
+            try:
+                ob.witness = _eval_witness(m, witness.get("terms", {}))
+            except Exception as e:  # the witness is a convenience for the replay only
+                ob.witness = {"error": f"{type(e).__name__}: {e}"}
     else:
         ob.status = "unknown"
         ob.reason = s.reason_unknown()
